@@ -16,9 +16,17 @@ import (
 )
 
 type faultCase struct {
-	Old, New string // hex; New may be FAIL
-	Sys      string // pwrite64 ftruncate read flock
+	Call     string // transform (default) | write | createwrite | editwrite
+	Old, New string // hex; New = t's result (or FAIL) for transform, the data otherwise
+	Sys      string // pwrite64 ftruncate read write flock
 	K        int    // 1-based occurrence
+}
+
+func (c faultCase) call() string {
+	if c.Call == "" {
+		return "transform"
+	}
+	return c.Call
 }
 
 func short(h string) string {
@@ -72,13 +80,13 @@ type faultOutcome struct {
 
 // modelIndex: position (0-based, among visible ops) of the k-th op of class sys in the
 // model's fault-free trace for transform old->new; -1 if there is none.
-func modelIndex(m *common.Model, old, nw, sys string, k int, nreads int) int {
-	ans := m.Ask1(fmt.Sprintf("ops transform %s %s", nw, old))
+func modelIndex(m *common.Model, call, old, nw, sys string, k int, nreads int) int {
+	ans := m.Ask1(fmt.Sprintf("ops %s %s %s", call, nw, old))
 	f := strings.Fields(ans)
 	if len(f) < 3 {
 		return -1
 	}
-	want := map[string]string{"pwrite64": "pwrite", "ftruncate": "ftruncate", "read": "readall"}[sys]
+	want := map[string]string{"pwrite64": "pwrite", "ftruncate": "ftruncate", "read": "readall", "write": "write"}[sys]
 	seen := 0
 	for i, t := range f[3:] {
 		name := t
@@ -108,7 +116,7 @@ func runFaultCase(self, work string, m *common.Model, c faultCase) (faultOutcome
 	path := filepath.Join(work, "fault-file")
 	// fault-free run first: how many calls of each kind there are
 	setFile(path, c.Old)
-	_, base, _, err := straceCall(self, work, "transform", path, c.New, "", []string{"GOMAXPROCS=1"})
+	_, base, _, err := straceCall(self, work, c.call(), path, c.New, "", []string{"GOMAXPROCS=1"})
 	if err != nil {
 		return fo, err
 	}
@@ -123,7 +131,7 @@ func runFaultCase(self, work string, m *common.Model, c faultCase) (faultOutcome
 	if c.Sys == "flock" {
 		errName = "EINTR"
 	}
-	result, evs, raw, err := straceCall(self, work, "transform", path, c.New,
+	result, evs, raw, err := straceCall(self, work, c.call(), path, c.New,
 		fmt.Sprintf("%s:error=%s:when=%d", c.Sys, errName, c.K), []string{"GOMAXPROCS=1"})
 	if err != nil {
 		return fo, err
@@ -141,27 +149,38 @@ func runFaultCase(self, work string, m *common.Model, c faultCase) (faultOutcome
 	}
 	fo.impl = result + " " + final + " | " + tr
 	// direct oracle
+	isPrefix := func(p, whole string) bool {
+		if p == "-" {
+			return true
+		}
+		return whole != "-" && strings.HasPrefix(whole, p)
+	}
 	switch {
-	case result == "err" && final != c.Old:
-		fo.direct = "error-return-but-contents-changed"
-	case result == "ok" && c.New != "FAIL" && final != c.New:
-		fo.direct = "nil-return-but-contents-not-new"
-	case result == "ok" && c.New == "FAIL":
-		fo.direct = "nil-return-although-t-failed"
 	case result != "ok" && result != "err":
 		fo.direct = "helper-crashed"
+	case c.call() == "transform" && result == "err" && final != c.Old:
+		fo.direct = "error-return-but-contents-changed"
+	case c.call() == "transform" && result == "ok" && c.New != "FAIL" && final != c.New:
+		fo.direct = "nil-return-but-contents-not-new"
+	case c.call() == "transform" && result == "ok" && c.New == "FAIL":
+		fo.direct = "nil-return-although-t-failed"
+	case (c.call() == "write" || c.call() == "createwrite") && result == "ok" && final != c.New:
+		fo.direct = "nil-return-but-contents-not-new"
+	case (c.call() == "write" || c.call() == "createwrite") && result == "err" && final != c.Old && !isPrefix(final, c.New):
+		// no rollback is promised for Write, but never a mixture of old and new
+		fo.direct = "failed-write-left-neither-old-nor-a-prefix-of-new"
 	case c.Sys != "flock" && fo.hit && result == "ok":
 		fo.direct = "injected-failure-swallowed"
 	case c.Sys == "flock" && fo.hit && c.New != "FAIL" && result != "ok":
 		fo.direct = "EINTR-not-retried"
 	}
 	if m != nil && c.Sys != "flock" {
-		idx := modelIndex(m, c.Old, c.New, c.Sys, c.K, nreads)
+		idx := modelIndex(m, c.call(), c.Old, c.New, c.Sys, c.K, nreads)
 		var ans string
 		if idx < 0 {
-			ans = m.Ask1(fmt.Sprintf("ops transform %s %s", c.New, c.Old))
+			ans = m.Ask1(fmt.Sprintf("ops %s %s %s", c.call(), c.New, c.Old))
 		} else {
-			ans = m.Ask1(fmt.Sprintf("fault %s %s %d fail 0", c.Old, c.New, idx))
+			ans = m.Ask1(fmt.Sprintf("faultcall %s %s %s %d fail 0", c.call(), c.New, c.Old, idx))
 		}
 		o, f, t, e := canonModel(ans)
 		if e != nil {
